@@ -240,10 +240,26 @@ def era_start_on_rule_transition_mechanism(w, p, prop):
     followed by EUAsia ('Oct lastSun 1:00u'), or 'America/Metlakatla -8:00 - PST 2015 Nov 1 1:01s' followed by
     '-9:00 US'.  Only mismatches within a day of such a boundary are attributed to it."""
     import datetime as dt
-    if w.get("epochSeconds") is None or not w["key"].endswith(("offset-differs", "dst-flag-differs", "abbrev-differs")):
+    # second symptom of the same mechanism: the interpreter's own sanity check compares the still-unconverted 's'/'u' start
+    # with the wall-clock rule transition of the same day and raises 'Transitions not sorted' (the Python ZoneSpecifier is
+    # also what the compiler uses to size the transition buffers, so the Arduino generator dies with it)
+    raised = "Transitions not sorted" in str(w.get("error", "")) and (w["key"].endswith(":python-interpreter-raises") or ":compiler-died:" in w["key"])
+    if raised:
+        names = [w["zone"]] if w.get("zone") in p["zones"] else sorted(p["zones"])
+        for zn in names:
+            probe = era_start_on_rule_transition_mechanism({"key": prop + ":offset-differs", "zone": zn, "epochSeconds": None, "_any_time": True}, p, prop)
+            if probe["key"].endswith("rule-transition-of-the-new-era"):
+                w = dict(w)
+                w["key"] = probe["key"]
+                w["what"] = probe["what"] + " (here: ZoneSpecifier's sanity check raises 'Transitions not sorted')"
+                w["boundary"], w["rule"], w["zone_with_boundary"] = probe.get("boundary"), probe.get("rule"), zn
+                return w
+        return w
+    any_time = bool(w.get("_any_time"))
+    if (w.get("epochSeconds") is None and not any_time) or not w["key"].endswith(("offset-differs", "dst-flag-differs", "abbrev-differs")):
         return w
     eras = p["zones"].get(w.get("zone"), [])
-    t = dt.datetime(2000, 1, 1) + dt.timedelta(seconds=int(w["epochSeconds"]))
+    t = dt.datetime(2000, 1, 1) + dt.timedelta(seconds=int(w["epochSeconds"] or 0))
     for i, e in enumerate(eras[:-1]):
         if len(e) < 7:
             continue
@@ -262,7 +278,7 @@ def era_start_on_rule_transition_mechanism(w, p, prop):
             boundary = dt.datetime(y, md[0], md[1]) + dt.timedelta(seconds=ut)      # in 's' or 'u' time: within 16 h of UTC
         except ValueError:
             continue
-        if abs((t - boundary).total_seconds()) > (16 + 24) * 3600:
+        if not any_time and abs((t - boundary).total_seconds()) > (16 + 24) * 3600:
             continue
         for r in rules:
             lo = int(r[0])
@@ -413,9 +429,9 @@ def check_program(v, prog_id, p, workdir, scopes=("extended", "basic"), targets=
             try:
                 tzpipe.generate_arduino(c, gen, ns)
             except tzpipe.CompilerDied as e:
-                v.violation("%s:compiler-died:%s:%s" % (prop, e.stage, type(e.exc).__name__),
-                            "the Arduino generator raised on a source the transformer accepted",
-                            {"program": prog_id, "scope": scope, "error": repr(e.exc)[:400]})
+                w = classify({"key": "%s:compiler-died:%s:%s" % (prop, e.stage, type(e.exc).__name__),
+                              "what": "the Arduino generator raised on a source the transformer accepted", "error": repr(e.exc)[:400]})
+                v.violation(w["key"], w["what"], w)
                 continue
             ofile = workdir / ("oracle-%s.bin" % scope)
             zicoracle.write_oracle_file(ofile, {z: segs[z] for z in judged}, judged)
